@@ -67,6 +67,9 @@ pub enum Op {
     SeedSnap { c: u8, since: Option<u32>, age_us: Option<i64> },
     /// restart the server(s) with other snapshot targets
     Reconfig { days: i64, versions: u32 },
+    /// SQLite: a foreign writer holds the database's write lock for this long (simulated µs),
+    /// starting now; it affects the next request
+    ForeignLock { hold_us: i64 },
 }
 
 impl Op {
@@ -83,6 +86,7 @@ impl Op {
             Op::Restart => "restart".into(),
             Op::SeedSnap { c, since, age_us } => format!("seed c{c} since={since:?} age_us={age_us:?}"),
             Op::Reconfig { days, versions } => format!("restart with targets days={days} versions={versions}"),
+            Op::ForeignLock { hold_us } => format!("foreign writer holds the lock for {hold_us}us"),
         }
     }
 }
